@@ -5,14 +5,17 @@ pair, lbuf_wr onto a real file with previous contents; plain and ASan builds of 
 sbuf.c) and (ii) the real `vi -s -e` (`%p`, `:a,bw[!] t`, `:Nr g`, `:x,yd`, `:w`, `:wq`) versus the
 extracted model coq/IoDefs.v.  Oracle (the property itself, in Python): norm(file) / the
 concatenation of the addressed lines, compared byte for byte with what the implementation left in
-the files and printed.
+the files and printed.  (iii) short-write stream: `:a,bw! t` of the real editor under harness/faultshim.c
+(LD_PRELOAD) with every write(2) to the target cut to a cap (legal short counts, never an error): the
+retry path of write_fully, which coq/TrWrite.v ties to the C text by proof; oracle = the same byte equality.
 """
 import json, os, resource, subprocess
 import vlib
 
 GROUP = 'io'
 TRUSTED = ['Python bytes.split/join as the independent reference (norm, want) of the failing-input search',
-           'AF_UNIX SOCK_SEQPACKET delivers one record per read(2) (used to control the chunking seen by lbuf_rd)']
+           'AF_UNIX SOCK_SEQPACKET delivers one record per read(2) (used to control the chunking seen by lbuf_rd)',
+           'harness/faultshim.c (LD_PRELOAD interposer) for the short-write stream: write(2) to the target really writes min(cap, n) bytes']
 
 LINE_LENS = [0, 1, 2, 3, 1021, 1022, 1023, 1024, 1025, 1026, 2047, 2048, 2049, 4093, 4094, 4095, 4096, 4097, 4098,
              8191, 8192, 8193, 20000]
@@ -380,6 +383,100 @@ def run_model(model, reqs, workers=16):
     return rc, out, err
 
 
+# ------------------------------------------------------------------ short-write stream (write_fully's retry path)
+SHORT_CAPS = [1, 2, 100, 777, 1023, 4095, 4096, 4097, 6000]
+_shim = []
+
+
+def build_shim():
+    if not _shim:
+        so = os.path.join(vlib.tmpdir(), 'faultshim_c01.so')
+        r = vlib.sh(['cc', '-shared', '-fPIC', '-O1', '-o', so, os.path.join(vlib.VERIF, 'harness', 'faultshim.c'), '-ldl'])
+        if r.returncode != 0:
+            raise vlib.BuildError('faultshim.c: ' + r.stdout[-1500:])
+        _shim.append(so)
+    return _shim[0]
+
+
+def gen_short(rng, kind):
+    """A file, a range and the caps of the first write(2) calls on the target (call 0 is the open)."""
+    bodies, last_nl, kind = gen_file(rng, kind)
+    content = content_of(bodies, last_nl)
+    n = len(lines_of(content))
+    b, e = gen_range(rng, n) if rng.chance(1, 3) else (0, n)
+    t = rng.below(4)
+    if t == 0:
+        caps = [rng.choice(SHORT_CAPS)] * 63
+    elif t == 1:
+        caps = [rng.choice(SHORT_CAPS) for _ in range(63)]
+    elif t == 2:
+        caps = [rng.choice(SHORT_CAPS)] + [1 << 20] * 3 + [rng.choice(SHORT_CAPS)] * 8      # one short count, full writes, short again
+    else:
+        caps = [rng.range(1, 5000) for _ in range(rng.range(1, 63))]
+    return {'kind': 'shortwrite', 'file_kind': kind, 'content': content.hex(), 'b': b, 'e': e, 'caps': caps}
+
+
+def run_short(vi, c):
+    content = bytes.fromhex(c['content'])
+    ls = lines_of(content)
+    b, e = max(0, min(c['b'], len(ls))), max(0, min(c['e'], len(ls)))
+    exp = want(ls, b, e)
+    if e <= b:
+        return None
+    env = {'LD_PRELOAD': build_shim(), 'NVSHIM_TARGETS': 't',
+           'NVSHIM_SCHED': ','.join('%d:short:%d' % (i + 1, k) for i, k in enumerate(c['caps'][:63]))}
+    sc = b'%d,%dw! t\nq!\n' % (b + 1, e)
+    r = vlib.run_ex(vi, sc, files={'f': content}, args=['f'], readback=['t'], timeout=20, env=env)
+    if r.timed_out:
+        r = vlib.run_ex(vi, sc, files={'f': content}, args=['f'], readback=['t'], timeout=60, env=env)
+    if r.crashed():
+        return ('editor crashed or hung while writing under short counts (rc=%s)' % r.rc, exp, b'')
+    got = r.files.get('t')
+    if got != exp:
+        return ('write(2) returned short counts (caps %s...): the file written by :%d,%dw! is not the concatenation of those lines'
+                % (c['caps'][:4], b + 1, e), exp, got)
+    return None
+
+
+def shrink_short(vi, c):
+    """Fewer lines, then a single cap."""
+    content = bytes.fromhex(c['content'])
+    ls = lines_of(content)
+
+    def mk(sub, caps):
+        return dict(c, content=b''.join(sub).hex(), b=0, e=len(sub), caps=caps)
+    try:
+        if c['b'] != 0 or c['e'] != len(ls):
+            ls = ls[c['b']:c['e']]
+        if not run_short(vi, mk(ls, c['caps'])):
+            return c
+        if len(ls) >= 2:
+            ls = vlib.shrink(ls, lambda sub: bool(run_short(vi, mk(sub, c['caps']))), max_steps=40)
+        for caps in ([c['caps'][0]], [c['caps'][0]] * 63, c['caps'][:8]):
+            if run_short(vi, mk(ls, caps)):
+                return mk(ls, caps)
+        return mk(ls, c['caps'])
+    except Exception:
+        return c
+
+
+def short_stream(ctx, vi, cases):
+    res = ctx.res
+    bads = vlib.pmap(lambda i: run_short(vi, cases[i]), range(len(cases)))
+    for c, bad in zip(cases, bads):
+        res.evaluations += 1
+        if max(len(l) for l in lines_of(bytes.fromhex(c['content'])) or [b'']) >= 1023 or len(c['content']) // 2 > 4096:
+            res.nontriv('short:' + c['content'][:64] + str(c['caps'][:3]) + str(len(c['content'])))
+        if bad:
+            bad = run_short(vi, c) if bad[0].startswith('editor crashed') else bad        # confirm alone
+        if bad:
+            what, e, o = bad
+            small = c if ctx.replay else shrink_short(vi, c)
+            res.violation({'what': what + ' (first difference at byte %s)' % first_diff(e, o or b''), 'input': small,
+                           'expected': clip(e), 'observed': clip(o or b'')})
+    res.count('short-write cases (faultshim)', len(cases))
+
+
 def run(ctx):
     res = ctx.res
     rng = ctx.rng
@@ -399,6 +496,9 @@ def run(ctx):
     if ctx.replay:
         rp = json.load(open(ctx.replay))
         inp = rp.get('input')
+        if isinstance(inp, dict) and inp.get('kind') == 'shortwrite':
+            short_stream(ctx, vi, [inp])
+            return
         if isinstance(inp, dict):
             cases.append(inp)
     else:
@@ -530,6 +630,11 @@ def run(ctx):
         if i % 67 == 0:
             res.sample({'kind': case.get('kind'), 'bytes': len(case['content']) // 2, 'lines': len(lines_of(bytes.fromhex(case['content']))),
                         'range': [ex['b'], ex['e']], 'old': None if case['old'] is None else len(case['old']) // 2, 'final': case['final']})
+    # ---- short counts from write(2): the retry path of write_fully (tied to the C text by proof in coq/TrWrite.v)
+    if not ctx.replay:
+        ns = 48 if ctx.quick else 1200
+        skinds = ['long', 'batch', 'long', 'batch', 'many', 'small']
+        short_stream(ctx, vi, [gen_short(rng.fork('short%d' % i), skinds[i % 6]) for i in range(ns)])
     res.extra['editor_runs'] = nvi
     res.extra['probe_requests'] = len(reqs) + len(sb_reqs)
     res.extra['asan_requests'] = nas + len(sb_reqs)
